@@ -5,7 +5,6 @@ Import ListNotations.
 From CF Require Import ZSum ListAux Defs Core Machines GraphLink MachinesLink PyDict ImpRep TranslatedImpCFiringScript.
 Open Scope Z_scope.
 
-Definition rep_vset (n : nat) (vs : list nat) : Prop := forall v, s_mem v vs = Nat.ltb v n.
 Definition rep_script (n : nat) (sd : dictZ) (s : list Z) : Prop := length s = n /\ forall v, (v < n)%nat -> d_get v 0 sd = nthZ s v.
 
 Lemma d_get_set k k2 (x dflt : Z) d : d_get k2 dflt (d_set k x d) = if Nat.eqb k2 k then x else d_get k2 dflt d.
